@@ -177,7 +177,7 @@ Definition phase_inv (c : cfg) (s : st) : Prop :=
       (cut s = false -> forall p, In p (pend s) -> t <= p) /\ (cut s = true -> t = c_end c)
   | PEvalPre t => t = ev s /\ t < c_end c /\ cycles s <> [] /\ (forall p, In p (pend s) -> t <= p) /\ cut s = false
   | PEval t => t = ev s /\ t < c_end c /\ cycles s <> [] /\ (forall p, In p (pend s) -> t <= p) /\ cut s = false
-  | PDone => stop s = false -> cut s = false -> forall p, In p (pend s) -> c_end c <= p
+  | PDone => (cut s = false -> forall p, In p (pend s) -> ev s <= p) /\ (stop s = false -> c_end c <= ev s)
   end.
 
 Definition Inv (c : cfg) (s : st) : Prop :=
@@ -254,7 +254,9 @@ Proof.
       destruct stop0; inv_some Hs. inv_some H. simpl. destruct HP as (Hp & He & Hcut).
       unfold adv_inv; simpl. repeat split; auto.
     + (* PTop, LExit *)
-      destruct stop0; inv_some Hs. inv_some H. simpl. repeat split; auto. discriminate.
+      destruct stop0; inv_some Hs. inv_some H. simpl. destruct HP as (Hp & He & Hcut). unfold lowb in Hp; simpl in Hp.
+      repeat split; auto; try discriminate.
+      intros _ p Hin. specialize (Hp _ Hin). unfold MIN_TD in *. destruct cycles0; lia.
     + (* PRead, LRead *)
       destruct (wall0 <=? w); inv_some Hs. inv_some H. simpl. unfold adv_inv, lowb in *; simpl in *.
       repeat split; try tauto. discriminate.
@@ -303,7 +305,8 @@ Proof.
     + (* PAdv, LExit: without a stop request the end has been reached, and no pending time was passed *)
       match type of Hs with (if ?b then _ else _) = _ => destruct b eqn:Ebrk end; inv_some Hs. inv_some H. simpl.
       destruct HP as (Hev & _ & Hpc & _). repeat split; auto.
-      intros Hst Hcu p Hin. subst stop0. specialize (Hpc Hcu p Hin). simpl in Ebrk. unfold MAX_DT in *. lia.
+      * intros Hcu p Hin. specialize (Hpc Hcu p Hin). lia.
+      * intros Hst. subst stop0. simpl in Ebrk. unfold MAX_DT in *. lia.
     + (* PEvalPre, LNode *)
       destruct push0; inv_some Hs. inv_some H. simpl. tauto.
     + (* PEvalPre, LPushNode *)
@@ -463,3 +466,359 @@ Qed.
 
 Lemma run_Inv2 : forall c w0 ls s, wfc c -> run c w0 ls s -> Inv2 c s.
 Proof. intros; eapply Inv2_exec; eauto using Inv_init, Inv2_init. Qed.
+
+(* ================================================================== *)
+(* Third invariant: the wait protocol.  A flag is set under the mutex before its
+   notify_all, and the wait tests the flags under the same mutex before blocking:
+   whenever the loop is blocked in wait_for with a push or a stop flagged, a
+   notify_all is still owed or has already reached the waiter. *)
+Definition Inv3 (s : st) : Prop :=
+  0 <= notif s /\
+  match ph s with
+  | PWait _ sg => wake_requested s = true -> 0 < notif s \/ sg = true
+  | _ => True
+  end.
+
+Lemma Inv3_init : forall c w0, Inv3 (init c w0).
+Proof. intros; unfold Inv3, init; simpl. split; [lia|auto]. Qed.
+
+Lemma Inv3_step : forall c s l s', Inv3 s -> gstep c s l = Some s' -> Inv3 s'.
+Proof.
+  intros c s l s' (Hn & Hw) H.
+  destruct s as [ev0 pend0 push0 stop0 consec0 ph0 wall0 notif0 cycles0 cut0].
+  unfold gstep in H. destruct (step c _ l) as [s1|] eqn:Hs; [|discriminate].
+  unfold step in Hs. destruct (is_other l) eqn:Ho.
+  - assert (s' = s1) by (simpl in H; destruct ph0; destruct l; simpl in Ho; try discriminate; inv_some H; auto).
+    subst s1. clear H. unfold Inv3, wake_requested in *; simpl in *.
+    destruct l; simpl in Ho; try discriminate; simpl in Hs.
+    + destruct (lock_held ph0); [discriminate|]. destruct stop0; inv_some Hs; simpl; auto.
+      split; [lia|]. destruct ph0; auto. intros _. left; lia.
+    + destruct (0 <? notif0) eqn:E0; inv_some Hs; simpl. split; [lia|].
+      destruct ph0; simpl; auto. unfold wake_requested; simpl. intros Hf. right. rewrite Hf. apply Bool.orb_true_r.
+    + destruct (lock_held ph0); [discriminate|]. inv_some Hs; simpl.
+      split; [lia|]. destruct ph0; auto. intros _. left; lia.
+    + destruct (0 <? notif0) eqn:E0; inv_some Hs; simpl. split; [lia|].
+      destruct ph0; simpl; auto. unfold wake_requested; simpl. intros Hf. right. rewrite Hf. apply Bool.orb_true_r.
+  - unfold Inv3, wake_requested in *; simpl in *.
+    destruct ph0; destruct l; simpl in Ho; try discriminate; simpl in Hs; try discriminate;
+    try (match type of Hs with do_req _ _ _ _ _ _ _ = Some _ =>
+           destruct (do_req_frame _ _ _ _ _ _ _ _ Hs) as (E1 & E2 & E3 & E4 & E5 & E6 & E7 & E8 & _);
+           simpl in *; inv_some H; rewrite E5, E6; simpl; auto end);
+    try (match type of Hs with (if ?b then _ else _) = _ => destruct b eqn:Eb end; try discriminate).
+    all: try solve [inv_some Hs; inv_some H; simpl; auto].
+    + (* LWaitBefore: the predicate is false when the loop blocks *)
+      inv_some Hs. inv_some H. simpl. split; auto. intros Hf. unfold wake_requested in Eb; simpl in Eb.
+      rewrite Hf in Eb. rewrite Bool.andb_false_r in Eb. discriminate.
+    + (* LAdv *)
+      destruct (t =? advance_result c _ tgt w); inv_some Hs. inv_some H. simpl. auto.
+    + (* LEvalBegin *)
+      destruct (t0 =? t); inv_some Hs. inv_some H. simpl. auto.
+Qed.
+
+Lemma Inv3_exec : forall c ls s s', Inv3 s -> exec c s ls = Some s' -> Inv3 s'.
+Proof.
+  induction ls as [|l r IH]; simpl; intros s s' HI H; [inv_some H; auto|].
+  destruct (gstep c s l) as [s1|] eqn:E; [|discriminate].
+  apply (IH s1 s'); [eapply Inv3_step; eauto | exact H].
+Qed.
+
+(* ================================================================== *)
+(* stop requests *)
+Definition loop_label (l : label) : bool := negb (is_other l).
+
+(* own steps of the loop thread from a phase to the exit, once a stop is flagged
+   (phases of graph code are excluded: they end when the evaluation returns) *)
+Definition togo (p : phase) : Z :=
+  match p with
+  | PTop => 1 | PRead _ => 3 | PCheck _ _ _ _ => 2 | PWait _ _ => 4 | PWoke _ _ => 3 | PAdv _ _ => 1
+  | _ => 0
+  end.
+Definition in_loop_code (p : phase) : bool :=
+  match p with PTop | PRead _ | PCheck _ _ _ _ | PWait _ _ | PWoke _ _ | PAdv _ _ => true | _ => false end.
+
+Lemma gstep_stop : forall c s l s',
+  gstep c s l = Some s' -> stop s = true ->
+  stop s' = true /\
+  l <> LTop /\ l <> LWaitBefore /\ (forall t, l <> LEvalBegin t) /\
+  (loop_label l = false -> ph s' = ph s \/ exists tgt a b, ph s = PWait tgt a /\ ph s' = PWait tgt b) /\
+  (loop_label l = true -> in_loop_code (ph s) = true ->
+     togo (ph s') + 1 = togo (ph s) /\ (in_loop_code (ph s') = true \/ ph s' = PDone)) /\
+  (loop_label l = true -> in_loop_code (ph s) = false ->
+     ph s' = PTop \/ in_loop_code (ph s') = false).
+Proof.
+  intros c s l s' H Hst.
+  destruct s as [ev0 pend0 push0 stop0 consec0 ph0 wall0 notif0 cycles0 cut0]. simpl in Hst. subst stop0.
+  unfold gstep in H. destruct (step c _ l) as [s1|] eqn:Hs; [|discriminate].
+  unfold step in Hs. unfold loop_label. destruct (is_other l) eqn:Ho.
+  - assert (s' = s1) by (simpl in H; destruct ph0; destruct l; simpl in Ho; try discriminate; inv_some H; auto).
+    subst s1. clear H. simpl.
+    destruct l; simpl in Ho; try discriminate; simpl in Hs.
+    + destruct (lock_held ph0); [discriminate|]. inv_some Hs; simpl.
+      repeat split; auto; try discriminate.
+    + destruct (0 <? notif0); inv_some Hs; simpl. repeat split; auto; try discriminate.
+      intros _. destruct ph0; simpl; auto. right; eauto.
+    + destruct (lock_held ph0); [discriminate|]. inv_some Hs; simpl. repeat split; auto; try discriminate.
+    + destruct (0 <? notif0); inv_some Hs; simpl. repeat split; auto; try discriminate.
+      intros _. destruct ph0; simpl; auto. right; eauto.
+  - simpl.
+    destruct ph0; destruct l; simpl in Ho; try discriminate; simpl in Hs; try discriminate;
+    try (match type of Hs with do_req _ _ _ _ _ _ _ = Some _ =>
+           destruct (do_req_frame _ _ _ _ _ _ _ _ Hs) as (E1 & E2 & E3 & E4 & E5 & E6 & E7 & E8 & _);
+           simpl in *; inv_some H; rewrite E3, E5; simpl;
+           repeat split; auto; try discriminate end);
+    try (match type of Hs with (if ?b then _ else _) = _ => destruct b eqn:Eb end; try discriminate).
+    all: try solve [inv_some Hs; inv_some H; simpl; repeat split; auto; try discriminate].
+    + (* LWaitBefore is not enabled *)
+      unfold wake_requested in Eb; simpl in Eb. rewrite Bool.orb_true_r in Eb. simpl in Eb.
+      rewrite Bool.andb_false_r in Eb. discriminate.
+    + destruct (t =? advance_result c _ tgt w); inv_some Hs. inv_some H. simpl.
+      repeat split; auto; try discriminate.
+Qed.
+
+Fixpoint loop_len (ls : list label) : Z :=
+  match ls with [] => 0 | l :: r => (if loop_label l then 1 else 0) + loop_len r end.
+
+Lemma loop_len_nonneg : forall ls, 0 <= loop_len ls.
+Proof. induction ls as [|l r IH]; simpl; [lia|]. destruct (loop_label l); lia. Qed.
+
+Lemma gstep_done : forall c s l s', gstep c s l = Some s' -> ph s = PDone -> loop_label l = false /\ ph s' = PDone.
+Proof.
+  intros c s l s' H Hd.
+  destruct s as [ev0 pend0 push0 stop0 consec0 ph0 wall0 notif0 cycles0 cut0]. simpl in Hd. subst ph0.
+  unfold gstep in H. destruct (step c _ l) as [s1|] eqn:Hs; [|discriminate].
+  unfold step in Hs. unfold loop_label. destruct (is_other l) eqn:Ho.
+  - simpl in H. inv_some H. split; auto.
+    destruct l; simpl in Ho; try discriminate; simpl in Hs.
+    + destruct stop0; inv_some Hs; auto.
+    + destruct (0 <? notif0); inv_some Hs; auto.
+    + inv_some Hs; auto.
+    + destruct (0 <? notif0); inv_some Hs; auto.
+  - destruct l; simpl in Ho; try discriminate; simpl in Hs; discriminate.
+Qed.
+
+Lemma exec_done : forall c ls s s', exec c s ls = Some s' -> ph s = PDone -> loop_len ls = 0 /\ ph s' = PDone.
+Proof.
+  induction ls as [|l r IH]; simpl; intros s s' H Hd; [inv_some H; auto|].
+  destruct (gstep c s l) as [s1|] eqn:E; [|discriminate].
+  destruct (gstep_done _ _ _ _ E Hd) as (Hl & Hd1). rewrite Hl. destruct (IH _ _ H Hd1). split; auto; lia.
+Qed.
+
+(* once a stop is flagged: it stays flagged; the loop body is not entered again, no
+   wait is begun, no cycle is begun *)
+Lemma stop_exec : forall c ls s s', exec c s ls = Some s' -> stop s = true ->
+  stop s' = true /\ ~ In LTop ls /\ ~ In LWaitBefore ls /\ (forall t, ~ In (LEvalBegin t) ls).
+Proof.
+  induction ls as [|l r IH]; simpl; intros s s' H Hst; [inv_some H; repeat split; auto|].
+  destruct (gstep c s l) as [s1|] eqn:E; [|discriminate].
+  destruct (gstep_stop _ _ _ _ E Hst) as (Hs1 & N1 & N2 & N3 & _).
+  destruct (IH _ _ H Hs1) as (Hs' & M1 & M2 & M3).
+  repeat split; auto; try (intros [Hx|Hx]; [congruence|tauto]).
+  intros t [Hx|Hx]; [apply (N3 t); congruence | apply (M3 t); auto].
+Qed.
+
+(* ... and the loop thread is out after at most togo(phase) <= 4 steps of its own *)
+Lemma stop_exits_within : forall c ls s s', exec c s ls = Some s' -> stop s = true -> in_loop_code (ph s) = true ->
+  loop_len ls <= togo (ph s) /\ (loop_len ls = togo (ph s) -> ph s' = PDone).
+Proof.
+  induction ls as [|l r IH]; simpl; intros s s' H Hst Hin.
+  - inv_some H. destruct (ph s); simpl in *; try discriminate; split; intros; lia.
+  - destruct (gstep c s l) as [s1|] eqn:E; [|discriminate].
+    destruct (gstep_stop _ _ _ _ E Hst) as (Hs1 & _ & _ & _ & Ho & Hl & _).
+    destruct (loop_label l) eqn:El.
+    + destruct (Hl eq_refl Hin) as (Ht & Hn). destruct Hn as [Hn|Hn].
+      * destruct (IH _ _ H Hs1 Hn) as (B1 & B2). split; [lia|]. intros Heq. apply B2. lia.
+      * destruct (exec_done _ _ _ _ H Hn) as (L0 & Hd). rewrite Hn in Ht. simpl in Ht. split; [lia|auto].
+    + destruct (Ho eq_refl) as [Hp|(tgt & a & b & Hp & Hp')].
+      * rewrite <- Hp in *. destruct (IH _ _ H Hs1 Hin) as (B1 & B2). split; [lia|]. intros; apply B2; lia.
+      * rewrite Hp in *. assert (Hin1 : in_loop_code (ph s1) = true) by (rewrite Hp'; auto).
+        destruct (IH _ _ H Hs1 Hin1) as (B1 & B2). rewrite Hp' in *. simpl in *. split; [lia|]. intros; apply B2; lia.
+Qed.
+
+(* reaching the end: an advance that returns end_time or later is followed by the exit only *)
+Lemma end_reached_exits : forall c s l s' prev t,
+  gstep c s l = Some s' -> ph s = PAdv prev t -> c_end c <= t -> loop_label l = true -> l = LExit /\ ph s' = PDone.
+Proof.
+  intros c s l s' prev t H Hp Ht Hl.
+  destruct s as [ev0 pend0 push0 stop0 consec0 ph0 wall0 notif0 cycles0 cut0]. simpl in Hp. subst ph0.
+  unfold gstep in H. destruct (step c _ l) as [s1|] eqn:Hs; [|discriminate].
+  unfold step in Hs. unfold loop_label in Hl. destruct (is_other l) eqn:Ho; [discriminate|].
+  destruct l; simpl in Ho; try discriminate; simpl in Hs; try discriminate.
+  - match type of Hs with (if ?b then _ else _) = _ => destruct b eqn:Eb end; [discriminate|]. lia.
+  - match type of Hs with (if ?b then _ else _) = _ => destruct b eqn:Eb end; inv_some Hs. inv_some H. auto.
+Qed.
+
+(* ================================================================== *)
+(* pushes *)
+Lemma gstep_push : forall c s l s', gstep c s l = Some s' -> push s = true -> l <> LPushNode ->
+  push s' = true /\ l <> LWaitBefore.
+Proof.
+  intros c s l s' H Hpu Hl.
+  destruct s as [ev0 pend0 push0 stop0 consec0 ph0 wall0 notif0 cycles0 cut0]. simpl in Hpu. subst push0.
+  unfold gstep in H. destruct (step c _ l) as [s1|] eqn:Hs; [|discriminate].
+  unfold step in Hs. destruct (is_other l) eqn:Ho.
+  - assert (s' = s1) by (simpl in H; destruct ph0; destruct l; simpl in Ho; try discriminate; inv_some H; auto).
+    subst s1. clear H.
+    destruct l; simpl in Ho; try discriminate; simpl in Hs.
+    + destruct (lock_held ph0); [discriminate|]. destruct stop0; inv_some Hs; simpl; split; auto; discriminate.
+    + destruct (0 <? notif0); inv_some Hs; simpl; split; auto; discriminate.
+    + destruct (lock_held ph0); [discriminate|]. inv_some Hs; simpl; split; auto; discriminate.
+    + destruct (0 <? notif0); inv_some Hs; simpl; split; auto; discriminate.
+  - destruct ph0; destruct l; simpl in Ho; try discriminate; simpl in Hs; try discriminate; try congruence;
+    try (match type of Hs with do_req _ _ _ _ _ _ _ = Some _ =>
+           destruct (do_req_frame _ _ _ _ _ _ _ _ Hs) as (E1 & E2 & E3 & E4 & E5 & E6 & E7 & E8 & _);
+           simpl in *; inv_some H; rewrite E2; split; auto; discriminate end);
+    try (match type of Hs with (if ?b then _ else _) = _ => destruct b eqn:Eb end; try discriminate).
+    all: try solve [inv_some Hs; inv_some H; simpl; split; auto; discriminate].
+    + unfold wake_requested in Eb; simpl in Eb. rewrite Bool.andb_false_r in Eb. discriminate.
+    + destruct (t =? advance_result c _ tgt w); inv_some Hs. inv_some H. simpl. split; auto; discriminate.
+    + destruct (t0 =? t); inv_some Hs. inv_some H. simpl. split; auto; discriminate.
+Qed.
+
+(* a flagged push stays flagged, and the loop cannot go to wait, until the push sources are evaluated *)
+Lemma push_exec : forall c ls s s', exec c s ls = Some s' -> push s = true -> ~ In LPushNode ls ->
+  push s' = true /\ ~ In LWaitBefore ls.
+Proof.
+  induction ls as [|l r IH]; simpl; intros s s' H Hpu Hn; [inv_some H; auto|].
+  destruct (gstep c s l) as [s1|] eqn:E; [|discriminate].
+  assert (Hl : l <> LPushNode) by (intros ->; apply Hn; auto).
+  destruct (gstep_push _ _ _ _ E Hpu Hl) as (Hp1 & Hw).
+  destruct (IH _ _ H Hp1) as (Hp' & Hw'); [tauto|]. split; auto. intros [Hx|Hx]; [congruence|tauto].
+Qed.
+
+(* a cycle that begins with a push flagged evaluates the push sources *)
+Lemma push_cycle_delivers : forall c s l s' t,
+  gstep c s l = Some s' -> ph s = PEvalPre t -> push s = true -> loop_label l = true -> l = LPushNode /\ push s' = false.
+Proof.
+  intros c s l s' t H Hp Hpu Hl.
+  destruct s as [ev0 pend0 push0 stop0 consec0 ph0 wall0 notif0 cycles0 cut0]. simpl in Hp, Hpu. subst ph0 push0.
+  unfold gstep in H. destruct (step c _ l) as [s1|] eqn:Hs; [|discriminate].
+  unfold step in Hs. unfold loop_label in Hl. destruct (is_other l) eqn:Ho; [discriminate|].
+  destruct l; simpl in Ho; try discriminate; simpl in Hs; try discriminate.
+  inv_some Hs. inv_some H. auto.
+Qed.
+
+(* ================================================================== *)
+(* a pending time leaves the pending set only by being evaluated, at exactly that time *)
+Lemma gstep_pend_removed : forall c s l s' p, wfc c -> Inv c s -> gstep c s l = Some s' ->
+  In p (pend s) -> ~ In p (pend s') ->
+  l = LEvalEnd /\ ev s = p /\ (ph s = PEval p \/ ph s = PEvalPre p).
+Proof.
+  intros c s l s' p Hw (HP & _) H Hin Hout.
+  destruct s as [ev0 pend0 push0 stop0 consec0 ph0 wall0 notif0 cycles0 cut0].
+  unfold gstep in H. destruct (step c _ l) as [s1|] eqn:Hs; [|discriminate].
+  unfold step in Hs. destruct (is_other l) eqn:Ho.
+  - assert (s' = s1) by (simpl in H; destruct ph0; destruct l; simpl in Ho; try discriminate; inv_some H; auto).
+    subst s1. clear H. exfalso. apply Hout. simpl in *.
+    destruct l; simpl in Ho; try discriminate; simpl in Hs.
+    + destruct (lock_held ph0); [discriminate|]. destruct stop0; inv_some Hs; auto.
+    + destruct (0 <? notif0); inv_some Hs; auto.
+    + destruct (lock_held ph0); [discriminate|]. inv_some Hs; auto.
+    + destruct (0 <? notif0); inv_some Hs; auto.
+  - unfold phase_inv in HP; simpl in *.
+    destruct ph0; destruct l; simpl in Ho; try discriminate; simpl in Hs; try discriminate;
+    try (match type of Hs with do_req _ _ _ _ _ _ _ = Some _ =>
+           destruct (do_req_frame _ _ _ _ _ _ _ _ Hs) as (_ & _ & _ & _ & _ & _ & _ & _ & Hk & _);
+           simpl in *; inv_some H; exfalso; apply Hout; apply Hk; auto end);
+    try (match type of Hs with (if ?b then _ else _) = _ => destruct b eqn:Eb end; try discriminate).
+    all: try solve [inv_some Hs; inv_some H; simpl in *; exfalso; apply Hout; auto].
+    + destruct (t =? advance_result c _ tgt w); inv_some Hs. inv_some H. simpl in *. exfalso; apply Hout; auto.
+    + destruct (t0 =? t); inv_some Hs. inv_some H. simpl in *. exfalso; apply Hout; auto.
+    + (* PEvalPre, LEvalEnd *)
+      inv_some Hs. inv_some H. simpl in *. destruct HP as (Hev & _ & _ & Hp & _).
+      assert (~ t < p) by (intros Hlt; apply Hout; apply pend_after_in; auto).
+      specialize (Hp _ Hin). assert (p = t) by lia. subst p. subst t. auto.
+    + inv_some Hs. inv_some H. simpl in *. destruct HP as (Hev & _ & _ & Hp & _).
+      assert (~ t < p) by (intros Hlt; apply Hout; apply pend_after_in; auto).
+      specialize (Hp _ Hin). assert (p = t) by lia. subst p. subst t. auto.
+Qed.
+
+Lemma exec_app : forall c a b s, exec c s (a ++ b) = match exec c s a with Some s1 => exec c s1 b | None => None end.
+Proof. induction a as [|l r IH]; simpl; intros b s; auto. destruct (gstep c s l); auto. Qed.
+
+Lemma exec_pend_removed : forall c ls s s' p, wfc c -> Inv c s -> exec c s ls = Some s' ->
+  In p (pend s) -> ~ In p (pend s') ->
+  exists la sm lb, ls = la ++ LEvalEnd :: lb /\ exec c s la = Some sm /\ ev sm = p /\ (ph sm = PEval p \/ ph sm = PEvalPre p).
+Proof.
+  induction ls as [|l r IH]; simpl; intros s s' p Hw HI H Hin Hout; [inv_some H; tauto|].
+  destruct (gstep c s l) as [s1|] eqn:E; [|discriminate].
+  destruct (in_dec Z.eq_dec p (pend s1)) as [Hin1|Hout1].
+  - destruct (IH s1 s' p Hw (Inv_step _ _ _ _ Hw HI E) H Hin1 Hout) as (la & sm & lb & -> & Hla & Hev & Hph).
+    exists (l :: la), sm, lb. simpl. rewrite E. auto.
+  - destruct (gstep_pend_removed _ _ _ _ _ Hw HI E Hin Hout1) as (-> & Hev & Hph).
+    exists [], s, r. simpl. auto.
+Qed.
+
+(* ================================================================== *)
+(* the acceptor of recorded histories is the transition function itself *)
+Lemma exec_ix_spec : forall c ls s i s',
+  fst (exec_ix c s ls i) = -1 -> 0 <= i -> snd (exec_ix c s ls i) = s' -> exec c s ls = Some s'.
+Proof.
+  induction ls as [|l r IH]; simpl; intros s i s' H Hi Hs; [congruence|].
+  destruct (gstep c s l) as [s1|] eqn:E; [apply (IH s1 (i + 1)); auto; lia | simpl in H; lia].
+Qed.
+
+Lemma exec_ix_complete : forall c ls s i s', exec c s ls = Some s' -> exec_ix c s ls i = (-1, s').
+Proof.
+  induction ls as [|l r IH]; simpl; intros s i s' H; [congruence|].
+  destruct (gstep c s l) as [s1|] eqn:E; [auto|discriminate].
+Qed.
+
+(* the arithmetic a free-running observer checks of one cycle holds of every cycle the model can
+   produce, whatever the unobserved reading was: w is the reading the loop used, wlast an earlier
+   reading, wobs a later one *)
+Lemma fr_cycle_sound : forall (first : bool) start endt prev wlast tgt w wobs t,
+  t = eval_time tgt w prev -> wlast <= w -> w <= wobs -> t < endt ->
+  (if first then start <= tgt /\ prev = start else prev < tgt) ->
+  fr_cycle_ok first start endt prev wlast tgt t wobs = true.
+Proof.
+  intros first start endt prev wlast tgt w wobs t -> H1 H2 H3 H4.
+  unfold fr_cycle_ok, eval_time, MIN_TD in *. destruct first; lia.
+Qed.
+
+(* ================================================================== *)
+(* never skipped: outside the drain cut, evaluation time never passes a pending wake-up time *)
+Lemma Inv_ev_le_pend : forall c s, Inv c s -> cut s = false -> forall p, In p (pend s) -> ev s <= p.
+Proof.
+  intros c s (HP & _) Hc p Hin. unfold phase_inv, adv_inv, lowb, MIN_TD in HP.
+  destruct (ph s); try (destruct HP as ((_ & Hp & _) & _); specialize (Hp _ Hin); destruct (cycles s); lia).
+  - destruct HP as (_ & Hp & _). auto.
+  - destruct HP as (Hp & _). specialize (Hp _ Hin). destruct (cycles s); lia.
+  - destruct HP as (_ & Hp & _). specialize (Hp _ Hin). destruct (cycles s); lia.
+  - destruct HP as (_ & Hp & _). specialize (Hp _ Hin). destruct (cycles s); lia.
+  - destruct HP as (He & _ & Hp & _). specialize (Hp Hc _ Hin). lia.
+  - destruct HP as (He & _ & _ & Hp & _). specialize (Hp _ Hin). lia.
+  - destruct HP as (He & _ & _ & Hp & _). specialize (Hp _ Hin). lia.
+  - destruct HP as (Hp & _). auto.
+Qed.
+
+(* a cycle is begun only at the time the latest advance returned *)
+Lemma evalbegin_latest : forall c s t s', Inv c s -> gstep c s (LEvalBegin t) = Some s' ->
+  exists a rest, cycles s = a :: rest /\ ct a = t /\ ph s' = PEvalPre t /\ cycles s' = cycles s.
+Proof.
+  intros c s t s' (HP & HE & _) H.
+  destruct s as [ev0 pend0 push0 stop0 consec0 ph0 wall0 notif0 cycles0 cut0].
+  unfold gstep in H. destruct (step c _ (LEvalBegin t)) as [s1|] eqn:Hs; [|discriminate].
+  unfold step in Hs; simpl in Hs. unfold phase_inv in HP; simpl in *.
+  destruct ph0; try discriminate.
+  match type of Hs with (if ?b then _ else _) = _ => destruct b eqn:Eb end; [discriminate|].
+  destruct (t =? t0) eqn:Et; inv_some Hs. inv_some H. simpl.
+  destruct HP as (Hev & (a & rest & Hcy & _) & _). subst cycles0. exists a, rest. repeat split; auto; try lia.
+  f_equal; lia.
+Qed.
+
+(* a request made during an evaluation is entered for a time after the current cycle, and is pending *)
+Lemma req_enters_pending : forall c s k a w1 w2 e s' t,
+  gstep c s (LReq k a w1 w2 e) = Some s' -> ph s = PEval t -> e <> 0 ->
+  sched_eff true (ev s) k a w1 w2 = Some e /\ ev s < e /\ In e (pend s') /\ ev s' = ev s.
+Proof.
+  intros c s k a w1 w2 e s' t H Hp He.
+  destruct s as [ev0 pend0 push0 stop0 consec0 ph0 wall0 notif0 cycles0 cut0]. simpl in Hp. subst ph0.
+  unfold gstep in H. destruct (step c _ _) as [s1|] eqn:Hs; [|discriminate].
+  unfold step in Hs; simpl in Hs. inv_some H.
+  destruct (do_req_frame _ _ _ _ _ _ _ _ Hs) as (E1 & _ & _ & _ & _ & _ & _ & _ & _ & Hin).
+  unfold do_req in Hs. match type of Hs with (if negb ?b then _ else _) = _ => destruct b end; simpl in Hs; [|discriminate].
+  simpl in *. destruct (sched_eff true ev0 k a w1 w2) as [e'|] eqn:Es.
+  - destruct (e' =? e) eqn:Ee; [|discriminate]. assert (e' = e) by lia. subst e'.
+    repeat split; auto. eapply sched_eff_started_gt; eauto.
+  - destruct (e =? 0) eqn:Ee; [lia|discriminate].
+Qed.
